@@ -256,7 +256,7 @@ def check_register_slots(rep, db, f, inst):
         if free not in conds:
             rep.violation(rule, site(f), "slot %d is taken without testing that it is free" % slot, f["loc"], inst)
             return
-        if not any(e.kind == "CALL" and q.short(e.a) == "unique_lock" for e in p.events):
+        if not any(e.kind == "CALL" and q.short(e.a) in q.EXCLUSIVE_GUARDS for e in p.events):
             rep.violation(rule, site(f), "slot table modified outside the unique guard", f["loc"], inst)
             return
     if nslots < 2:
